@@ -15,6 +15,11 @@
 (* SystemRunner::block_on) bound the stretch in which stop calls are known to be buffered together   *)
 (* (H_SysStopEnd); "LoopEndSeen" is written by the destructor of a guard owned by a task that never  *)
 (* completes, on a worker arbiter (H_LoopEnd).                                                        *)
+(* "AwaitStart" / "AwaitReturned" / "AwaitTimeout": the driver queued a burst of commands on an       *)
+(* arbiter that could not take them at the moment and waits, under the watchdog, until all of them    *)
+(* have started (H_AwaitStart, H_AwaitEnd).  Records the spec does not know ("Filler": commands that  *)
+(* were sent without a send record of their own, "OtherSystem": an older System of the same OS thread *)
+(* was stopped and run to completion, ...) change nothing.                                            *)
 EXTENDS RtProps, Json, IOUtils, TLC, TLCExt
 
 Rec == ndJsonDeserialize(IOEnv.TRACE)
@@ -25,7 +30,7 @@ R == Rec[l + 1]
 Summary == [order |-> NT_Order, started |-> NT_Started, afterStop |-> NT_AfterStop, afterGone |-> NT_AfterGone,
             mustStop |-> NT_MustStop, twoStops |-> NT_TwoStops, early |-> NT_Early,
             laterStop |-> NT_LaterStop, loopEndSeen |-> NT_LoopEndSeen,
-            selfSend |-> NT_SelfSend, echo |-> NT_Echo, negCode |-> NT_NegCode, ncreated |-> Cardinality(h.created),
+            awaited |-> NT_Awaited, selfSend |-> NT_SelfSend, echo |-> NT_Echo, negCode |-> NT_NegCode, ncreated |-> Cardinality(h.created),
             nmust |-> Cardinality(h.mustStop), ncands |-> Cardinality(h.run.cands),
             sends |-> Cardinality(DOMAIN h.snd), starts |-> Cardinality(AllStarts),
             driftFalse |-> ~X_FalseOnlyAfterStop, driftEarly |-> ~X_EarlyStopJoins]
@@ -52,6 +57,9 @@ Apply(r) ==
     [] r.ev = "RunReturned"   -> IF "coded" \in DOMAIN r /\ ~r.coded THEN H_RunRetNoCode(h, r.api)
                                   ELSE H_RunRet(h, r.api, r.ok, r.code)
     [] r.ev = "RunTimeout"    -> H_RunTimeout(h)
+    [] r.ev = "AwaitStart"    -> H_AwaitStart(h, r.arb)
+    [] r.ev = "AwaitReturned" -> H_AwaitEnd(h, r.arb, TRUE)
+    [] r.ev = "AwaitTimeout"  -> H_AwaitEnd(h, r.arb, FALSE)
     [] r.ev = "BlockOn"       -> H_BlockOn(h, r.expected, r.got)
     [] OTHER                  -> h
 
